@@ -32,12 +32,13 @@
 (*   Ardop_liveness    observation: a schedule on which Flush never returns.     *)
 EXTENDS Naturals, Sequences, FiniteSets, TLC
 
-CONSTANTS NWrites,              \* calls of Write before Flush
+CONSTANTS NWrites,              \* at most this many calls of Write before Flush (every count 1..NWrites is explored)
           MaxFaults,            \* CRCFAULT answers the TNC may give
           ProgressReports,      \* extra BUFFER n > 0 reports the TNC may send while data is queued
           LockOnlyIfPositive    \* named deviation
 
-VARIABLES pc,          \* App: "write", "await", "lock", "written", "flushing", "flushed", "failed"
+VARIABLES nw,          \* calls of Write the application makes before Flush (chosen initially, constant afterwards)
+          pc,          \* App: "write", "await", "lock", "written", "flushing", "flushed", "failed"
           wr,          \* number of the Write call in progress (its frame carries this number)
           attempt,     \* transmissions of the current frame so far
           rel,         \* kind of the report that released the current Write
@@ -51,24 +52,26 @@ VARIABLES pc,          \* App: "write", "await", "lock", "written", "flushing", 
           fromTnc,     \* control messages on the line to the host, in order: [k, got]
           inbox,       \* messages broadcast to the current Write's listener
           locked,      \* flush lock
-          zeroGot      \* the largest "got" of a BUFFER 0 the control loop has processed
+          zeroGot,     \* the largest "got" of a BUFFER 0 the control loop has processed
+          idle         \* BUFFER 0 reports the TNC has repeated while its queue was empty
 
-vars == <<pc, wr, attempt, rel, returned, toTnc, tncGot, lost, faults, q, extra, fromTnc, inbox, locked, zeroGot>>
-app  == <<pc, wr, attempt, rel, returned>>
-tnc  == <<tncGot, lost, faults, q, extra>>
+vars == <<nw, idle, pc, wr, attempt, rel, returned, toTnc, tncGot, lost, faults, q, extra, fromTnc, inbox, locked, zeroGot>>
+app  == <<nw, pc, wr, attempt, rel, returned>>
+tnc  == <<tncGot, lost, faults, q, extra, idle>>
 
 Msg(k) == [k |-> k, got |-> Cardinality(tncGot)]
 
-Init == /\ pc = "write" /\ wr = 1 /\ attempt = 0 /\ rel = "" /\ returned = {}
+Init == /\ nw \in 1..NWrites /\ idle = 0
+        /\ pc = "write" /\ wr = 1 /\ attempt = 0 /\ rel = "" /\ returned = {}
         /\ toTnc = <<>> /\ tncGot = {} /\ lost = {} /\ faults = 0 /\ q = 0 /\ extra = 0
         /\ fromTnc = <<>> /\ inbox = <<>> /\ locked = FALSE /\ zeroGot = 0
 
 (* App: send the frame (first time or after CRCFAULT) *)
 Send == /\ pc = "write" /\ attempt < 3
         /\ toTnc' = Append(toTnc, wr) /\ attempt' = attempt + 1 /\ pc' = "await"
-        /\ UNCHANGED <<wr, rel, returned, tnc, fromTnc, inbox, locked, zeroGot>>
+        /\ UNCHANGED <<nw, wr, rel, returned, tnc, fromTnc, inbox, locked, zeroGot>>
 GiveUp == /\ pc = "write" /\ attempt = 3 /\ pc' = "failed"
-          /\ UNCHANGED <<wr, attempt, rel, returned, toTnc, tnc, fromTnc, inbox, locked, zeroGot>>
+          /\ UNCHANGED <<nw, wr, attempt, rel, returned, toTnc, tnc, fromTnc, inbox, locked, zeroGot>>
 
 (* App: a broadcast message arrives at Write's listener *)
 Await == /\ pc = "await" /\ inbox # <<>>
@@ -78,35 +81,39 @@ Await == /\ pc = "await" /\ inbox # <<>>
                        [] m.k \in {"BUFFER", "BUFFER0"} -> "lock"     \* any BUFFER report is taken as: the frame was accepted
                        [] OTHER -> "await"
             /\ rel' = m.k
-         /\ UNCHANGED <<wr, attempt, returned, toTnc, tnc, fromTnc, locked, zeroGot>>
+         /\ UNCHANGED <<nw, wr, attempt, returned, toTnc, tnc, fromTnc, locked, zeroGot>>
 TakeLock == /\ pc = "lock"
             /\ locked' = IF LockOnlyIfPositive /\ rel = "BUFFER0" THEN locked ELSE TRUE
             /\ returned' = returned \cup {wr} /\ pc' = "written"
-            /\ UNCHANGED <<wr, attempt, rel, toTnc, tnc, fromTnc, inbox, zeroGot>>
+            /\ UNCHANGED <<nw, wr, attempt, rel, toTnc, tnc, fromTnc, inbox, zeroGot>>
 (* the next Write opens a new listener: earlier broadcasts are not seen *)
-NextWrite == /\ pc = "written" /\ wr < NWrites
+NextWrite == /\ pc = "written" /\ wr < nw
              /\ wr' = wr + 1 /\ attempt' = 0 /\ inbox' = <<>> /\ pc' = "write"
-             /\ UNCHANGED <<rel, returned, toTnc, tnc, fromTnc, locked, zeroGot>>
-StartFlush == /\ pc = "written" /\ wr = NWrites /\ pc' = "flushing"
-              /\ UNCHANGED <<wr, attempt, rel, returned, toTnc, tnc, fromTnc, inbox, locked, zeroGot>>
+             /\ UNCHANGED <<nw, rel, returned, toTnc, tnc, fromTnc, locked, zeroGot>>
+StartFlush == /\ pc = "written" /\ wr = nw /\ pc' = "flushing"
+              /\ UNCHANGED <<nw, wr, attempt, rel, returned, toTnc, tnc, fromTnc, inbox, locked, zeroGot>>
 FlushReturns == /\ pc = "flushing" /\ ~locked /\ pc' = "flushed"
-                /\ UNCHANGED <<wr, attempt, rel, returned, toTnc, tnc, fromTnc, inbox, locked, zeroGot>>
+                /\ UNCHANGED <<nw, wr, attempt, rel, returned, toTnc, tnc, fromTnc, inbox, locked, zeroGot>>
 
 (* TNC: a frame arrives; it is faulted or accepted *)
 TncFault == /\ toTnc # <<>> /\ faults < MaxFaults
             /\ toTnc' = Tail(toTnc) /\ faults' = faults + 1 /\ lost' = lost \cup {Head(toTnc)}
             /\ fromTnc' = Append(fromTnc, Msg("CRCFAULT"))
-            /\ UNCHANGED <<app, tncGot, q, extra, inbox, locked, zeroGot>>
+            /\ UNCHANGED <<app, tncGot, q, extra, idle, inbox, locked, zeroGot>>
 TncAccept == /\ toTnc # <<>>
              /\ toTnc' = Tail(toTnc) /\ tncGot' = tncGot \cup {Head(toTnc)} /\ lost' = lost \ {Head(toTnc)} /\ q' = q + 1
              /\ fromTnc' = Append(fromTnc, [k |-> "BUFFER", got |-> Cardinality(tncGot')])
-             /\ UNCHANGED <<app, faults, extra, inbox, locked, zeroGot>>
+             /\ UNCHANGED <<app, faults, extra, idle, inbox, locked, zeroGot>>
 TncProgress == /\ q > 0 /\ extra < ProgressReports
                /\ extra' = extra + 1 /\ fromTnc' = Append(fromTnc, Msg("BUFFER"))
-               /\ UNCHANGED <<app, toTnc, tncGot, lost, faults, q, inbox, locked, zeroGot>>
+               /\ UNCHANGED <<app, toTnc, tncGot, lost, faults, q, idle, inbox, locked, zeroGot>>
 TncDrained == /\ q > 0
               /\ q' = 0 /\ fromTnc' = Append(fromTnc, Msg("BUFFER0"))
-              /\ UNCHANGED <<app, toTnc, tncGot, lost, faults, extra, inbox, locked, zeroGot>>
+              /\ UNCHANGED <<app, toTnc, tncGot, lost, faults, extra, idle, inbox, locked, zeroGot>>
+(* an idle TNC may repeat BUFFER 0 (bounded like the progress reports) *)
+TncIdleZero == /\ q = 0 /\ tncGot # {} /\ idle < ProgressReports
+               /\ idle' = idle + 1 /\ fromTnc' = Append(fromTnc, Msg("BUFFER0"))
+               /\ UNCHANGED <<app, toTnc, tncGot, lost, faults, q, extra, inbox, locked, zeroGot>>
 
 (* Control loop: take the next message; BUFFER 0 releases the flush lock; then broadcast *)
 Ctrl == /\ fromTnc # <<>>
@@ -118,17 +125,17 @@ Ctrl == /\ fromTnc # <<>>
         /\ UNCHANGED <<app, toTnc, tnc>>
 
 Next == Send \/ GiveUp \/ Await \/ TakeLock \/ NextWrite \/ StartFlush \/ FlushReturns
-        \/ TncFault \/ TncAccept \/ TncProgress \/ TncDrained \/ Ctrl
+        \/ TncFault \/ TncAccept \/ TncProgress \/ TncDrained \/ TncIdleZero \/ Ctrl
 Spec == Init /\ [][Next]_vars /\ WF_vars(Next)
 FairSpec == Init /\ [][Next]_vars /\ WF_vars(Send) /\ WF_vars(Await) /\ WF_vars(TakeLock) /\ WF_vars(NextWrite) /\ WF_vars(StartFlush)
                  /\ WF_vars(FlushReturns) /\ WF_vars(TncAccept) /\ WF_vars(TncDrained) /\ WF_vars(Ctrl) /\ WF_vars(GiveUp)
 
 InFlight(w) == \E i \in 1..Len(toTnc) : toTnc[i] = w
 (* safety of C14 *)
-WriteCountHonest == NWrites = 1 /\ pc \in {"written", "flushing", "flushed"} => 1 \in tncGot  \* (n, nil) only if the TNC has the bytes
+WriteCountHonest == nw = 1 /\ pc \in {"written", "flushing", "flushed"} => 1 \in tncGot  \* (n, nil) only if the TNC has the bytes
 NoAcceptedWriteLost == \A w \in returned : w \in tncGot \/ InFlight(w)                       \* generalisation to several writes
 RetransmitOnCrcFault == \A w \in lost : InFlight(w) \/ (wr = w /\ pc \in {"await", "write", "failed"})  \* the Write that owns a faulted frame is still retrying
-FlushAfterBufferZero == pc = "flushed" => zeroGot = NWrites      \* a BUFFER 0 sent after the last frame was accepted has been processed
+FlushAfterBufferZero == pc = "flushed" => zeroGot = nw      \* a BUFFER 0 sent after the last frame was accepted has been processed
 AtMostThreeAttempts == attempt <= 3
 (* liveness that the mechanism does NOT have (observation, outside C14's safety wording): if the control loop processes *)
 (* BUFFER n and BUFFER 0 before Write takes the lock, nobody releases it                                               *)
